@@ -78,6 +78,10 @@ C10Clauses(r, res) ==
   IF ~r.hasalt THEN {}
   ELSE IF ~Inserted(r.d, r.S, r.alt.S) THEN {"~c10:notinsertion"}
   ELSE (IF BagOO(r.errs, r.alt.errs, FALSE) THEN {} ELSE {"c10:changed"})
+       \* the old members keep their relative order in S2 (Inserted), so the errors are also reported in the same order
+       \* (validate() raises the first of them)
+       \cup (IF Len(r.errs) # Len(r.alt.errs) \/ \A k \in DOMAIN r.errs : EqOO(r.errs[k], r.alt.errs[k], FALSE)
+             THEN {} ELSE {"c10:reordered"})
        \cup (LET res2 == Run(r.d, EnvOf(r, r.alt.S), r.alt.S, r.I) IN
              IF SameBag(res.errs, res2.errs) /\ res.exc = res2.exc THEN {} ELSE {"~c10:spec_changed"})
 
